@@ -501,7 +501,7 @@ const managementConfigYAML = `eventformats:
       Fertilizer: '%s'
       Ndirect: '%.9f'
       NH4: '%.9f'
-seperatorrune: 32
+seperatorrune: 59
 `
 
 // ------------------------------- weather files -------------------------------------
